@@ -46,12 +46,27 @@ SAME = "http://www.w3.org/2002/07/owl#sameAs"
 OTHER_P = "http://example.org/other"
 
 
-def variants(u, pred):
+def variants(u, pred, style=0):
+    """[?s bound / VALUES inside, ?s bound / VALUES after, ?o bound / inside, ?o bound / after]; the style varies what surrounds the
+    pattern (solution modifiers, DISTINCT, a sub-select, a second harmless VALUES): the answers must not depend on it."""
+    if style == 1:
+        mod_o, mod_s, dist = " ORDER BY ?o", " ORDER BY ?s", ""
+    elif style == 2:
+        mod_o, mod_s, dist = " LIMIT 1000", " ORDER BY DESC(?s) LIMIT 1000", "DISTINCT "
+    else:
+        mod_o = mod_s = dist = ""
+    if style == 3:
+        return [
+            ("o", f"SELECT ?o WHERE {{ {{ SELECT ?s ?o WHERE {{ VALUES ?s {{ <{u}> }} ?s <{pred}> ?o }} }} }}"),
+            ("o", f"SELECT ?o WHERE {{ {{ SELECT ?s ?o WHERE {{ ?s <{pred}> ?o }} VALUES ?s {{ <{u}> }} }} }}"),
+            ("s", f"SELECT ?s WHERE {{ {{ SELECT ?s ?o WHERE {{ VALUES ?o {{ <{u}> }} ?s <{pred}> ?o }} }} }}"),
+            ("s", f"SELECT ?s WHERE {{ {{ SELECT ?s ?o WHERE {{ ?s <{pred}> ?o }} VALUES ?o {{ <{u}> }} }} }}"),
+        ]
     return [
-        ("o", f"SELECT ?o WHERE {{ VALUES ?s {{ <{u}> }} ?s <{pred}> ?o }}"),
-        ("o", f"SELECT ?o WHERE {{ ?s <{pred}> ?o }} VALUES ?s {{ <{u}> }}"),
-        ("s", f"SELECT ?s WHERE {{ VALUES ?o {{ <{u}> }} ?s <{pred}> ?o }}"),
-        ("s", f"SELECT ?s WHERE {{ ?s <{pred}> ?o }} VALUES ?o {{ <{u}> }}"),
+        ("o", f"SELECT {dist}?o WHERE {{ VALUES ?s {{ <{u}> }} ?s <{pred}> ?o }}{mod_o}"),
+        ("o", f"SELECT {dist}?o WHERE {{ ?s <{pred}> ?o }}{mod_o} VALUES ?s {{ <{u}> }}"),
+        ("s", f"SELECT {dist}?s WHERE {{ VALUES ?o {{ <{u}> }} ?s <{pred}> ?o }}{mod_s}"),
+        ("s", f"SELECT {dist}?s WHERE {{ ?s <{pred}> ?o }}{mod_s} VALUES ?o {{ <{u}> }}"),
     ]
 
 
@@ -74,7 +89,7 @@ def alg_tree(cv):
 
 def algebra_queries(u, pred):
     """The four placements of the property plus shapes in which a VALUES clause sits deeper or more than once."""
-    qs = [q for _, q in variants(u, pred)]
+    qs = [q for st in (0, 1, 2, 3) for _, q in variants(u, pred, st)]
     qs += [
         f"SELECT ?o WHERE {{ {{ ?s <{pred}> ?o }} UNION {{ ?o <{pred}> ?s }} }} VALUES ?s {{ <{u}> }}",
         f"SELECT ?o WHERE {{ ?s <{pred}> ?o OPTIONAL {{ ?o <{pred}> ?x VALUES ?x {{ <{u}> }} }} }} VALUES ?s {{ <{u}> }}",
@@ -195,7 +210,8 @@ class C18(Plugin):
         web_checked = False
         for qi, (u, is_pred) in enumerate(queries):
             row = []
-            for var, sparql in variants(u, SAME if is_pred else OTHER_P):
+            style = (len(recs) + qi + len(u)) % 4
+            for var, sparql in variants(u, SAME if is_pred else OTHER_P, style):
                 try:
                     res = graph.query(sparql, processor=proc)
                     # the answers must be IRI terms (a plain str cannot be serialised as a SPARQL result)
@@ -204,26 +220,37 @@ class C18(Plugin):
                     row.append(["<error: " + type(e).__name__ + ">"])
             if qi == 0:
                 # the same query over HTTP: Flask GET and POST, FastAPI GET
-                for vi in (0, 2):     # ?s bound and ?o bound
-                    var, sparql = variants(u, SAME if is_pred else OTHER_P)[vi]
+                for vi in (0, 1, 2, 3):     # ?s bound and ?o bound, VALUES inside and after the WHERE block: all four through the served endpoints
+                    var, sparql = variants(u, SAME if is_pred else OTHER_P, style)[vi]
                     web = self.web_answers(clients, sparql, var)
                     for name, ans in web:
                         if ans != row[vi]:
                             row[vi] = [f"<{name} differs: {ans}>"]
             qa.append(row)
         ha = []
-        fl = clients[0]
+        fl, fa = clients
+        probe = "SELECT ?o WHERE { VALUES ?s { <http://a/1> } ?s <http://www.w3.org/2002/07/owl#sameAs> ?o }"
         for hi, h in enumerate(headers):
             try:
                 v = handle_header(None if h is None else h.v)
             except Exception:
                 v = None
-            if hi < 2 and v is not None and h is not None and h.v and "\t" not in h.v:
-                r = fl.get("/sparql", query_string={"query": "SELECT ?o WHERE { VALUES ?s { <http://a/1> } ?s <http://www.w3.org/2002/07/owl#sameAs> ?o }"},
-                           headers={"Accept": h.v})
-                got = (r.headers.get("Content-Type") or "").split(";")[0].strip()
-                if got != v:
-                    v = f"<flask content-type {got}>"
+            # the negotiated type must be what both served endpoints answer with (a missing Accept header included)
+            if hi < 3 and v is not None and (h is None or (h.v and "\t" not in h.v)):
+                hdrs = {} if h is None else {"Accept": h.v}
+                for name, send in (("flask GET", lambda: fl.get("/sparql", query_string={"query": probe}, headers=hdrs)),
+                                   ("flask POST", lambda: fl.post("/sparql", data={"query": probe}, headers=hdrs)),
+                                   ("fastapi GET", (lambda: fa.get("/sparql", params={"query": probe}, headers=hdrs)) if not isinstance(fa, Exception) else None)):
+                    if send is None:
+                        continue
+                    try:
+                        r = send()
+                        got = (r.headers.get("Content-Type") or r.headers.get("content-type") or "").split(";")[0].strip()
+                    except Exception as e:
+                        got = "<" + type(e).__name__ + ">"
+                    if got != v:
+                        v = f"<{name} content-type {got}>"
+                        break
             ha.append(None if v is None else Some(v))
         return case, [qa, ha, after]
 
